@@ -390,11 +390,23 @@ def main_check(chk: PropCheck, argv: Optional[List[str]] = None) -> int:
     model_out: List[Optional[str]] = [None] * len(cases)
     driver_error = None
     if lean.build_ok and not args.no_lean:
-        idx = [i for i, c in enumerate(cases) if chk.model_line(c) is not None]
+        def lines_for(c):
+            """One driver line per case, or several (their outputs are joined with '§')."""
+            if hasattr(chk, "model_lines"):
+                return chk.model_lines(c)
+            l = chk.model_line(c)
+            return None if l is None else [l]
+
+        per_case = [(i, lines_for(c)) for i, c in enumerate(cases)
+                    if not (isinstance(reals[i], dict) and ("__timeout__" in reals[i] or "__harness_exception__" in reals[i]))]
+        per_case = [(i, ls) for i, ls in per_case if ls]
         try:
-            outs = run_driver([chk.model_line(cases[i]) for i in idx])
-            for i, o in zip(idx, outs):
-                model_out[i] = o
+            flat = [l for _, ls in per_case for l in ls]
+            outs = run_driver(flat)
+            pos = 0
+            for i, ls in per_case:
+                model_out[i] = "§".join(outs[pos:pos + len(ls)])
+                pos += len(ls)
         except Exception as e:
             driver_error = str(e)
     mismatches = [i for i in range(len(cases)) if model_out[i] is not None and model_out[i] != canon[i]]
